@@ -393,6 +393,17 @@ func (ex *Exec) assertEq(st *State, a, b StrV, label string) {
 	if a.Obj == 0 || b.Obj == 0 {
 		return // both empty given equal lengths
 	}
+	if ex.concrete != nil && a.Len.Op == OConst && a.Len.K <= 1<<22 {
+		// concrete replay: compare directly
+		for i := uint64(0); i < a.Len.K; i++ {
+			x, y := ex.strByte(st, a, i), ex.strByte(st, b, i)
+			if x != y {
+				ex.check(st, ts.BNot(ts.Eq(x, y)), "assert", label+" (content)")
+				return
+			}
+		}
+		return
+	}
 	w := ts.Fresh(64, "wit")
 	ao, bo := ex.obj(st, a.Obj), ex.obj(st, b.Obj)
 	bad := ts.BAnd(ts.Ult(w, a.Len), ts.BNot(ts.Eq(ts.Select(ao.arr, ts.Add(a.Off, w)), ts.Select(bo.arr, ts.Add(b.Off, w)))))
